@@ -3,25 +3,36 @@ from registry_common import COMMON_ASSUME
 ENTRY = dict(
         title="One device object per controller address, for every arrival timing",
         design_ref="DESIGN.md section 6 / C10",
-        technique="Lean 4 interleaving machine for get_device_entry and its callers (consumers, user get()), four-phase mutual-exclusion "
-                  "invariant proved for all schedules + trace inclusion against a real AsyncProtocol under a virtual loop with held thread-pool imports",
+        technique="Lean 4 interleaving machine for get_device_entry and its callers (consumers and user get() calls for any number of "
+                  "addresses under the one lock, class loading that completes or raises), mutual-exclusion / one-entry-per-address "
+                  "invariant proved for all schedules + trace inclusion against a real AsyncProtocol under a virtual loop with held "
+                  "thread-pool imports",
         level_text=(
-            "Proof: `C10.single_device` shows for EVERY interleaving of any number of frame consumers and user get() callers, with the "
-            "class loading completing at any point, that at most one device is created, set-up is started exactly once per created device, "
-            "the name is dispatched at most once, every returned caller (consumer or get()) holds object 0 = the published entry, and every "
-            "handled frame was handled by it, once; `same_object_at_every_time` compares callers at two different moments; "
-            "`always_handleable` shows every unfinished consumer can finish within three moves from every reachable state; "
-            "`unlocked_counterexample` shows the same machine without the lock creates two devices. `holds`/`replay_is_run` tie the "
-            "driver's replay of a harness schedule to the machine. The machine is tied to protocol.py by trace inclusion: schedules of "
-            "feed/release/get events are run on a real AsyncProtocol (real StreamReader, real Lock/Queue/Event, held run_in_executor) and "
-            "replayed by the driver; snapshots must be equal and C10.spec is judged by the driver on the implementation's snapshots."),
+            "Proof: `C10.per_address_single_device` shows for EVERY interleaving of any number of frame consumers and user get() callers "
+            "for any number of addresses, with each class loading completing (or raising) at any point, that per address at most one "
+            "device is created, its set-up started exactly once, the address announced at most once, every returned caller (consumer or "
+            "get()) holds the entry of ITS address, every handled frame was handled by it, once, a frame is dropped only when its "
+            "address has no device class; `addresses_do_not_interfere` (no object serves two addresses), `single_device`, "
+            "`entry_is_stable` + `same_object_at_every_time` (an entry is never replaced; callers at two different moments agree), "
+            "`always_handleable` (every unfinished consumer can finish within five moves from every reachable state), "
+            "`unlocked_counterexample` (the same machine without the lock creates two devices for one address). Replay: `replay_is_run` "
+            "(every state of the driver's replay is a machine state under the recorded schedule, and quiescent), `holds` (every "
+            "snapshot satisfies C10.snapOk) and `final_ok` (a COMPLETE schedule — accepted, every settle at a fixpoint, nothing held — "
+            "ends in a snapshot satisfying C10.finalOk: every frame handled or, without a device class, dropped; every get() for an "
+            "address with an entry returned). The machine is tied to protocol.py by trace inclusion: schedules of feed/release/get "
+            "events over the addresses 69, 81 and 86 (no device class) are run on a real AsyncProtocol (real StreamReader, real "
+            "Lock/Queue/Event, held run_in_executor) and replayed by the driver; snapshots must be equal and C10.spec is judged by the "
+            "driver on the implementation's snapshots."),
         level_note="Trusted: Lean kernel; asyncio.Lock is mutual exclusion with FIFO wake-up, Event/Queue as documented; the machine <-> protocol.py "
-                   "tie is differential (thorough tier: every arrangement of feed groups of 1..4 frames x release position x 0..2 get() x 1..3 consumers).",
+                   "tie is differential (thorough tier: every arrangement of feed groups of 1..4 frames x release position x 0..2 get() x 1..3 "
+                   "consumers for one address, every sequence of 1..3 frames over three addresses x releases x get() positions).",
         clauses={
-            "at most one create per address, all schedules": "theorem (single_device)",
-            "every caller (consumer, user get()) obtains the same object at every time": "theorem (single_device, same_object_at_every_time)",
-            "set-up started once": "theorem (single_device: setups = created <= 1, = 1 once anyone holds the object)",
-            "every frame is handled by that object": "theorem (single_device safety; always_handleable progress) + correspondence (final snapshot of complete runs)",
+            "at most one create per address, all schedules, any number of addresses": "theorem (per_address_single_device)",
+            "every caller (consumer, user get()) obtains the same object at every time": "theorem (per_address_single_device, single_device, entry_is_stable, same_object_at_every_time)",
+            "addresses sharing the lock do not interfere; no object serves two addresses": "theorem (addresses_do_not_interfere)",
+            "set-up started once": "theorem (per_address_single_device: setupsFor = createdFor <= 1, = 1 once the address has an entry)",
+            "every frame is handled by that object": "theorem (per_address_single_device safety; always_handleable progress; final_ok: complete schedules leave no frame unhandled) + correspondence",
+            "class loading that raises (no device class): frame dropped, lock released, nothing published": "theorem (per_address_single_device, always_handleable) + correspondence (frames from ECONET 86)",
             "the model distinguishes locked from unlocked code": "theorem (unlocked_counterexample)",
             "the machine describes protocol.py / asyncio.Lock is mutual exclusion": "correspondence (trace inclusion on enumerated schedules)",
         },
@@ -29,6 +40,7 @@ ENTRY = dict(
             "a consumer task handling several frames in turn is modelled as several non-overlapping callers; the machine allows every overlap, "
             "so the number of consumer tasks is over-approximated (theorems hold for any number)",
             "device-class loading is the only suspension inside the lock besides the dispatch callbacks; both are separate machine moves",
+            "final_ok speaks about the driver's FIFO settle policy (passes until no caller can move); fairness of the real event loop is exercised, not proved",
         ],
         timeout={"quick": 300, "thorough": 1500},
     )
